@@ -371,6 +371,55 @@ func gatePar1(w *World, r *Report, probe bool) {
 					ok = true
 				}
 			}
+			if !ok {
+				// the comparison made by a private helper: check(volumeBytes, header.ControlHash) == nil
+				for _, cm := range cmpsAt(ret.Block()) {
+					if cm.Op != token.EQL || cm.Y == nil {
+						continue
+					}
+					for _, pr := range [][2]ssa.Value{{cm.X, cm.Y}, {cm.Y, cm.X}} {
+						hc, isCall := stripConv(pr[0]).(*ssa.Call)
+						if !isCall || !isNilConst(pr[1]) {
+							continue
+						}
+						h := hc.Call.StaticCallee()
+						if h == nil || !inRegion(fn, h) || h == fn {
+							continue
+						}
+						good := true
+						nsucc := 0
+						for _, hret := range successReturns(h) {
+							nsucc++
+							found := false
+							for _, hp := range eqFacts(hret.Block()) {
+								call := callOf(hp[0], "crypto/md5.Sum")
+								if call == nil {
+									continue
+								}
+								sl, isSl := stripConv(call.Call.Args[0]).(*ssa.Slice)
+								if !isSl || sl.Low == nil || sl.High != nil {
+									continue
+								}
+								if lo, isC := constInt(sl.Low); !isC || lo != 0x20 {
+									continue
+								}
+								if w.up(sl.X) != ssa.Value(fn.Params[0]) {
+									continue
+								}
+								if lastField(deepPath(w.up(hp[1]))) == "controlhash" {
+									found = true
+								}
+							}
+							if !found {
+								good = false
+							}
+						}
+						if good && nsucc > 0 {
+							ok = true
+						}
+					}
+				}
+			}
 			if ok {
 				r.ok("GATE", key, w.ipos(ret), "dominated by md5.Sum(volumeBytes[0x20:]) == header.ControlHash")
 			} else {
